@@ -86,6 +86,7 @@ def run(ctx, R):
                      "derived PartialEq is field-wise and Cow equality compares contents (axiom). C16.L: the return types are <'static>, the crate has no unsafe "
                      'and no interior mutability, so an owned copy cannot alias or change with the input buffer (thorough tier adds compile-fail witnesses).')
     n = v1model.sibling_compare(ctx, R, 'C16.S')
+    v1model.v1_no_panic(ctx, R, 'C16.S')
     R.floor('co-satisfiable sibling outcome pairs', n, 6)
     fromstr_delegation(ctx, R, 'C16.F')
     owned_copies(ctx, R)
